@@ -217,6 +217,7 @@ fn run_ops(p: &PciParams, sc: &str) -> (Vec<String>, Value) {
         // for byte / half-word accesses and must never be exceeded by wider ones
         let cfg_len = [0usize, 4, 8, 12, 60, 256, 5, 6, 7, 13, 62][rng.gen_range(0..11)];
         EXACT_CFG_LEN.with(|e| e.set(true));
+        DUP_CAPS.with(|d| d.set(k % 3 == 1));
         let nq = 3;
         let mut d = VirtioPciDev::new(0, nq, 32768, (0..cfg_len).map(|i| i as u8).collect(), mult);
         d.semantic = false;
@@ -228,6 +229,7 @@ fn run_ops(p: &PciParams, sc: &str) -> (Vec<String>, Value) {
         let noffs: Vec<u16> = d.queues.iter().map(|q| q.notify_off).collect();
         let dev = install_standard(BDF, 2, d, cfg_len, cfg_len > 0);
         EXACT_CFG_LEN.with(|e| e.set(false));
+        DUP_CAPS.with(|d| d.set(false));
         with_bus(|b| b.log = false);
         let t = if p.cam {
             let base = map_cam(Cam::Ecam);
@@ -236,8 +238,18 @@ fn run_ops(p: &PciParams, sc: &str) -> (Vec<String>, Value) {
         } else {
             let mut root = PciRoot::new(ModelCam);
             PciTransport::new::<LedgerHal, _>(&mut root, DF)
-        }
-        .expect("standard function");
+        };
+        let t = match t {
+            Ok(t) => t,
+            Err(e) => {
+                // a well-formed function must be accepted: an event no specification explains
+                with_world(|w| w.trace.clear());
+                reg(json!({"e":"PReset","sc":format!("{sc}.{k}"),"mult":mult,"cfg_len":cfg_len,"has_cfg":cfg_len>0,"noffs":noffs,"notify_len":2,"nq":nq}));
+                reg(json!({"e":"StandardFunctionRefused","err":format!("{:?}", e)}));
+                lines.extend(with_world(|w| w.m_lines(&[])));
+                continue;
+            }
+        };
         with_world(|w| w.trace.clear());
         let notify_len = std::cmp::max(2, 2 * nq * mult as usize + 2);
         reg(json!({"e":"PReset","sc":format!("{sc}.{k}"),"mult":mult,"cfg_len":cfg_len,"has_cfg":cfg_len>0,"noffs":noffs,"notify_len":notify_len,"nq":nq}));
@@ -246,13 +258,19 @@ fn run_ops(p: &PciParams, sc: &str) -> (Vec<String>, Value) {
         let set_isr = move |i: u32| d2.borrow_mut().isr = i as u8;
         if k % 2 == 0 {
             let mut st: SomeTransport<'static> = t.into();
-            crate::scen_mmio::exercise(&mut st, &set_off, &set_isr, false, cfg_len, &mut rng);
+            let r = std::panic::catch_unwind(std::panic::AssertUnwindSafe(|| crate::scen_mmio::exercise(&mut st, &set_off, &set_isr, false, cfg_len, &mut rng)));
+            if let Err(pn) = r {
+                reg(json!({"e":"Panic","msg":crate::scen_vq::panic_msg(&pn)}));
+            }
             reg(json!({"e":"Op","name":"drop","vl":[0,0]}));
             drop(st);
             reg(json!({"e":"OpEnd"}));
         } else {
             let mut t = t;
-            crate::scen_mmio::exercise(&mut t, &set_off, &set_isr, false, cfg_len, &mut rng);
+            let r = std::panic::catch_unwind(std::panic::AssertUnwindSafe(|| crate::scen_mmio::exercise(&mut t, &set_off, &set_isr, false, cfg_len, &mut rng)));
+            if let Err(pn) = r {
+                reg(json!({"e":"Panic","msg":crate::scen_vq::panic_msg(&pn)}));
+            }
             reg(json!({"e":"Op","name":"drop","vl":[0,0]}));
             drop(t);
             reg(json!({"e":"OpEnd"}));
